@@ -1617,7 +1617,7 @@ func TestVerif_C34(t *testing.T) {
 	r.Assume("fault decisions are a function of (seed, direction, datagram sequence number); goroutine scheduling inside the bubble is not replayed bit-exactly")
 	r.Assume("net/url, net/http.Header and http.DetectContentType (standard library) are trusted; the harness never decodes HTTP/3 or QPACK bytes")
 	r.Assume("a handler that writes more than its declared Content-Length is accepted in the documented net/http way: Write reports an error and exactly the declared bytes travel (or the client read fails)")
-	n := r.N(70, 400)
+	n := r.N(70, 800)
 	maxEx, maxBody, maxHeaders := 4, int64(160<<10), 20
 	if r.Thorough() {
 		maxEx, maxBody, maxHeaders = 6, 1<<20, 30
@@ -1733,10 +1733,40 @@ func TestVerif_C34(t *testing.T) {
 		runCase(c, cfg)
 	})
 
+	// Responses with an explicit Content-Length: 0 that still carry trailers, on a perfect
+	// network: trailers announced in the Trailer header, trailers only known after the header
+	// was written (net/http.TrailerPrefix), or both.
+	nz := r.N(3, 9)
+	r.CasesParallel("content-length-0-with-trailers", nz, 3, func(c *verifrt.Case) {
+		rng := c.Rng
+		cfg := &v34Config{Faults: vhnFaults{BaseDelayMs: 1 + rng.IntN(20)}, FaultPhaseMs: 5000, CleanBoundS: 60, NetSeed: rng.Uint64()}
+		ex := v34GenExchange(rng, 0, 2000, 8)
+		if ex.ReqKind == v34ReqShort || ex.ReqKind == v34ReqLong {
+			ex.ReqKind, ex.ReqDeclared = v34ReqUnknown, -1
+		}
+		if ex.Method == "HEAD" {
+			ex.Method = "GET"
+		}
+		ex.Status, ex.EarlyHints = 200, false
+		ex.RespKind, ex.RespBody, ex.RespDeclared = v34RespExact, 0, 0
+		ex.RespTrailersDeclared, ex.RespTrailersPrefix, ex.RespTrailerUnset = nil, nil, ""
+		switch c.Index % 3 {
+		case 0:
+			ex.RespTrailersPrefix = v34ShortFields(rng, 1+rng.IntN(3), "X-Pu")
+		case 1:
+			ex.RespTrailersDeclared = v34ShortFields(rng, 1+rng.IntN(3), "X-Pt")
+		default:
+			ex.RespTrailersDeclared = v34ShortFields(rng, 1+rng.IntN(3), "X-Pt")
+			ex.RespTrailersPrefix = v34ShortFields(rng, 1+rng.IntN(3), "X-Pu")
+		}
+		cfg.Ex = []*v34Exchange{ex}
+		runCase(c, cfg)
+	})
+
 	r.CasesParallel("exchange", n, 8, func(c *verifrt.Case) {
 		runCase(c, v34GenConfig(c.Rng, maxEx, maxBody, maxHeaders))
 	})
-	n += nk + nr
+	n += nk + nr + nz
 	r.Require("runs_completed", int64(n*8/10))
 	r.Require("handler_observations_checked", int64(n))
 	r.Require("client_observations_checked", int64(n))
